@@ -19,6 +19,7 @@ import Proofs.GoTieArmorR
 import Proofs.GoTieWrap
 import Proofs.GoTieArmorW
 import Proofs.GoTieArmorRT
+import Proofs.GoTieWitnessB
 namespace AgeModel
 namespace Tie.C08
 open Extracted Armor
@@ -84,6 +85,25 @@ theorem code_armor_roundtrip {δ ω : Type} (W : GoTie.ArmorWEnv δ ω) (D : GoT
       Extracted.armor_armoredWriter_Close W.W W.Cl W.LE a1 = .ok (none, a2) ∧
       GoTie.codeDrain D ⟨W.absD a2.dst, false, 0, 0, List.replicate 48 0, none⟩ sizes = .ok (g', ps.flatten, Go.io_EOF) :=
   GoTie.code_armor_roundtrip W D ww0 d0 h0 hd0 ps sizes hpos hlong
+
+/-- non-vacuity of the round trip: the canonical writer environment, the model's strict decoder, any input — the
+    conclusion holds of one-byte reads -/
+theorem code_armor_roundtrip_instance (ps : List Bytes) :
+    ∃ sizes a1 a2 g', GoTie.armorWrites GoTie.ArmorWEnv.canonical ⟨false, false, ([], false), []⟩ ps = .ok (none, a1) ∧
+      Extracted.armor_armoredWriter_Close GoTie.ArmorWEnv.canonical.W GoTie.ArmorWEnv.canonical.Cl GoTie.ArmorWEnv.canonical.LE a1 = .ok (none, a2) ∧
+      GoTie.codeDrain GoTie.B64DecEnv.witness ⟨GoTie.ArmorWEnv.canonical.absD a2.dst, false, 0, 0, List.replicate 48 0, none⟩ sizes =
+        .ok (g', ps.flatten, Go.io_EOF) := by
+  obtain ⟨h0, hd0, sizes, hpos, hlong⟩ := GoTie.code_armor_roundtrip_premises ps
+  obtain ⟨a1, a2, g', h⟩ := code_armor_roundtrip GoTie.ArmorWEnv.canonical GoTie.B64DecEnv.witness ([], false) [] h0 hd0 ps sizes hpos hlong
+  exact ⟨sizes, a1, a2, g', h⟩
+
+/-- **the assumption structures this file's theorems take are satisfiable** (for a lawful toy primitive suite
+    with the 16-byte tag, where they mention primitives): none of the theorems above is vacuous. The instances are in
+    `Proofs/GoTieWitnessA.lean` / `GoTieWitnessB.lean`. -/
+theorem assumptions_satisfiable :
+    (∃ E : GoTie.ArmorWEnv Bytes (Bytes × Bool), ∃ ww0, E.absI ww0 = [] ∧ E.absO ww0 = [] ∧ E.isOpen ww0) ∧
+    Nonempty GoTie.B64DecEnv :=
+  ⟨⟨GoTie.ArmorWEnv.canonical, ([], false), GoTie.ArmorWEnv.canonical_fresh⟩, ⟨GoTie.B64DecEnv.witness⟩⟩
 
 end Tie.C08
 end AgeModel
